@@ -164,6 +164,10 @@ func c07Families(tier string) []c07Family {
 	fs = append(fs, c07Ordered("mat3x1", "ACGT-N", 3, 1, c07Cross(matCfg, v3)))
 	fs = append(fs, c07Ordered("mat3x4AC", "AC", 3, 4, c07Cross(matCfg, v3[:4])))
 	fs = append(fs, c07Ordered("mat3x2", "ACGT-", 3, 2, c07Cross(matCfg, append(append([]c07Variant{}, v3[:4]...), v3[6]))))
+	// (5') more rows than workers: all 7x1 alignments over {A,C} with 3, 4 and 5 workers (neither the rows nor
+	// the rows less one a multiple of the workers), also with ranges
+	v7 := []c07Variant{{nil, 3, 0}, {nil, 4, 0}, {nil, 5, 0}, {[]int{0, 5, 1, 6}, 4, 0}}
+	fs = append(fs, c07Ordered("mat7x1", "AC", 7, 1, c07Cross(matCfg, v7)))
 	// (6) lattice of 4 columns over {A,C,G,T,-,N}
 	lat4 := c07Cfgs(all, []float64{0, 1}, []int{0, 1, 2}, []bool{false, true}, []int{0})
 	if th {
@@ -265,7 +269,7 @@ func init() {
 			"Option space O (232 configurations) = rawdist x gap-mut {0,1,2} x rm-gaps; pdist x gap-mut x rm-gaps x rm-ambiguous; {jc,k2p,f81,f84,tn93} x gamma {off, alpha 0.5, 1, 2} x rm-gaps; all x weights {none, all 1, (1,2,3,..), (0.5,2,0.5,2,..)}. " +
 			"Alignments: (1) all 2x1 over the 15 IUPAC letters and '-' x O(unweighted) x {(cpus 1, no weights), (2, none), (1, all 1), (2, (1,2,..)), (1, (0.5,2,..))}; (2) all 2x2 over {A,C,G,T,-,N,R,Y} x O, and all 2x2 over {A,C,g,t,a,-} x O(unweighted) (a residue is the same nucleotide in lower case); (3) every multiset of 3 ordered pair columns over {A,C,G,T,-,N} x O; " +
 			"(4) order-dependent internal-gap mode: all ordered 2xL over {A,C,-}, L=3..5 (thorough ..6) x {rawdist,pdist} x gap-mut x rm-gaps x weights {none,(1,2,..),(0.5,2,..)}, and over {A,C,-,N}, L=3 (thorough ..4) x the same x rm-ambiguous x weights {none,(0.5,2,..)}; " +
-			"(5) matrix level, M (42 configurations) = rawdist/pdist x gap-mut x rm-gaps, 5 corrected models x alpha {off,0.5,1} x rm-gaps: all 3x1 over {A,C,G,T,-,N} x M x V, all 3x2 over {A,C,G,T,-} x M x V[1,2,3,4,7], all 3x4 over {A,C} (pairs at exactly p=3/4 beside finite ones) x M x V[1..4], with V = {(no range, cpus 1), (no range, cpus 2, weights (1,2,..)), (ranges 0:0 vs 1:2), (overlapping 0:1 vs 1:2, cpus 2), (0:2 vs 0:2), (beyond the end 0:5 vs 1:7), (second before first 1:2 vs 0:1), (1:1 vs 1:1)}; thorough adds all 3x3 over {A,C,G,-} x M x {(no range), (0:1 vs 1:2, cpus 2, weights)}, all 4x1 over {A,C,G,T,-} x M x 5 four-row variants, all 4x2 over {A,C,G,-} x M x {(no range), (0:2 vs 1:3, cpus 2)}; " +
+			"(5) matrix level, M (42 configurations) = rawdist/pdist x gap-mut x rm-gaps, 5 corrected models x alpha {off,0.5,1} x rm-gaps: all 3x1 over {A,C,G,T,-,N} x M x V, all 3x2 over {A,C,G,T,-} x M x V[1,2,3,4,7], all 3x4 over {A,C} (pairs at exactly p=3/4 beside finite ones) x M x V[1..4], with V = {(no range, cpus 1), (no range, cpus 2, weights (1,2,..)), (ranges 0:0 vs 1:2), (overlapping 0:1 vs 1:2, cpus 2), (0:2 vs 0:2), (beyond the end 0:5 vs 1:7), (second before first 1:2 vs 0:1), (1:1 vs 1:1)}; all 7x1 over {A,C} x M x {3, 4, 5 workers; ranges 0:5 vs 1:6 with 4 workers} (more rows than workers); thorough adds all 3x3 over {A,C,G,-} x M x {(no range), (0:1 vs 1:2, cpus 2, weights)}, all 4x1 over {A,C,G,T,-} x M x 5 four-row variants, all 4x2 over {A,C,G,-} x M x {(no range), (0:2 vs 1:3, cpus 2)}; " +
 			"(6) every multiset of 4 pair columns over {A,C,G,T,-,N} x (quick: unweighted, alpha {off,1}: 38 configurations; thorough: O); thorough also 5 columns x the 38 and 3 columns over {A,C,G,T,-,N,R,Y} x O; " +
 			"(7) saturation lattice: every multiset of 5..6 (thorough 5..8) columns over 12 column types (A/A C/C G/G T/T, A/G G/A C/T T/C, A/C T/G, A/-, N/A) x 5 corrected models x 4 gamma settings x rm-gaps x weights {none,(0.5,2,..)} (thorough: all 4). " +
 			"A case is non-trivial when at least one pair of its matrix was compared with a defined estimator value or checked as an undefined/boundary pair (cases skipped as undetermined are not counted); distinct = distinct (alignment, options, weights, ranges).",
